@@ -292,7 +292,7 @@ def main():
         rnd2 = random.Random(seed * 7919 + i); rnd2.shuffle(smp)
         for k, sm in enumerate(smp[:int(h.opts.get('validate', 4))]):
             rp = os.path.join(rdir, '%s-%s-sample%d.replay' % (prop, h.key, k)); write_replay(rp, h.name, h.params, sm['inputs'], sm.get('uf'))
-            nat = run_native(binp, h.name, rp)
+            nat = run_native(binp, h.name, rp, timeout=max(90, int(h.opts.get('hang_s', 10))))  # terminating path: generous, the machine may be loaded
             exp_end = 'done' if sm['end'] == 'done' else sm['end']
             ok = (nat['end'] == 'done' and sm['end'] == 'done' and nat['out'] == [[t, v] for t, v in sm['out']] and nat['reach'] == sm['reach']) or \
                  (sm['end'].startswith('throw:') and nat['end'].startswith('terminate:'))
